@@ -1032,7 +1032,7 @@ def _concat_symbolic(items, k):
 
 
 def jnp_hstack(items):
-    items = [to_at(i) for i in items]
+    items = [jnp_atleast_1d(to_at(i)) for i in items]     # numpy semantics: atleast_1d first
     if len(items[0].axes) == 1:
         return jnp_concatenate(items, 0)
     return jnp_concatenate(items, 1)
@@ -1101,12 +1101,21 @@ def bind(kind, ax, p):
     return res
 
 
-def jnp_trace(a):
+def jnp_trace(a, offset=0, axis1=0, axis2=1):
     a = to_at(a)
     if len(a.axes) != 2 or not all(isinstance(x, int) for x in a.axes):
         raise Top("trace of a non-matrix")
-    n = min(a.axes)
-    return AT((), _box(sum((a.data[i, i] for i in range(n)), Poly())))
+    if not isinstance(offset, int) or (axis1, axis2) not in ((0, 1), (1, 0), (-2, -1), (-1, -2)):
+        raise Top("trace with a symbolic offset / unusual axes")
+    if (axis1, axis2) in ((1, 0), (-1, -2)):
+        offset = -offset
+    r, c = a.axes
+    tot = Poly()
+    for i in range(r):
+        j = i + offset
+        if 0 <= j < c:
+            tot = tot + a.data[i, j]
+    return AT((), _box(tot))
 
 
 def jnp_abs(a):
